@@ -320,8 +320,14 @@ def run_shard(spec, ctx, acc):
             corp = streams.corpus()
             body, k = [], draw(st.integers(0, 50))
             target = draw(st.sampled_from([66000, 70000, 131500]))
-            while sum(len(x) for x in body) < target:
-                body.append(corp["ubx"][k % len(corp["ubx"])])
+            mix = draw(st.sampled_from(["ubx", "mixed", "mixed", "nmea"]))
+            size = 0
+            while size < target:
+                # pure UBX, pure NMEA or alternating: what the reader is in the middle
+                # of when the 64 KiB mark passes depends on it
+                src = "ubx" if mix == "ubx" or (mix == "mixed" and k % 2) else "nmea"
+                body.append(corp[src][k % len(corp[src])])
+                size += len(body[-1])
                 k += 1
             items = [streams.item("ubx", b"".join(body), "bulk")]
             tail = draw(st.lists(st.one_of(streams.nmea_items(), streams.nmea_items(), streams.ubx_items()),
